@@ -152,12 +152,19 @@ func (b *Bridge) Decode(f Fmt, t Ty, data []byte, excl []string, ignore int) str
 	// a decoder that hangs leaves a spinning goroutine behind each time; after three confirmed
 	// hangs the run is already a violation and further decodes are not started (they would only
 	// starve the rest of the run)
+	return watched(func() string { return b.decode1(f, t, data, excl, ignore) })
+}
+
+// watched runs one call into the library under the watchdog: `hang` when it does not return
+// (retried once before it counts; after three confirmed hangs nothing more is started, each hang
+// leaves a spinning goroutine behind).
+func watched(call func() string) string {
 	if atomic.LoadInt32(&confirmedHangs) >= 3 {
 		return "hang"
 	}
 	for attempt := 0; ; attempt++ {
 		ch := make(chan string, 1)
-		go func() { ch <- b.decode1(f, t, data, excl, ignore) }()
+		go func() { ch <- call() }()
 		select {
 		case out := <-ch:
 			return out
